@@ -1,6 +1,6 @@
 (* C12 - quadratic Hamiltonians: the algebra used by the checkers (product homomorphism, adjoint). *)
 From Coq Require Import NArith List Bool.
-From OFV Require Import Base.Cplx Base.Lin Sem.FermiSem Model.LadderOp Model.Conjugate Thm.C01.FermiHom Thm.C07.Adjoint Check.OpEquiv.
+From OFV Require Import Base.Cplx Base.Lin Sem.FermiSem Model.LadderOp Model.Conjugate Thm.C01.FermiHom Thm.C07.Adjoint Check.OpEquiv Thm.C12.DiagSpectrum.
 Import ListNotations.
 Theorem C12_fermion_product_hom : forall a b s, leq N.eqb (fden (fmul a b) s) (lbind (fden b s) (fden a)).
 Proof. exact fmul_hom. Qed.
@@ -8,3 +8,11 @@ Print Assumptions C12_fermion_product_hom.
 Theorem C12_hc_is_adjoint : forall op s s', coeff N.eqb s' (fden (hc_map op) s) = Cconj (coeff N.eqb s (fden op s')).
 Proof. exact hc_map_adjoint. Qed.
 Print Assumptions C12_hc_is_adjoint.
+
+(* [F] every list of orbital energies, every constant, every Fock state: the diagonal form
+   sum_k eps_k a+_k a_k + c has |s> as eigenvector with eigenvalue c + (sum of eps_k over the modes occupied
+   in s) - the many-body spectrum is the set of subset sums *)
+Theorem C12_diagonal_form_spectrum : forall eps c s k,
+  coeff N.eqb k (fden (diag_ham eps c) s) = Cmul (Cadd c (subset_sum eps s 0)) (coeff N.eqb k [(C1, s)]).
+Proof. exact diag_ham_eigen. Qed.
+Print Assumptions C12_diagonal_form_spectrum.
